@@ -51,6 +51,8 @@ Definition b2n (b : bool) (w : nat) : nat := if b then w else 0.
 (* bit k (k = 4*out_fail + 2*keep_vb + keep_nb) is set when the model under that setting of the flags agrees
    with the observation; 1 = as pinned, 128 = all three repaired *)
 Definition mask (c : case) : nat :=
+  (* the two extreme settings first: when both explain the observation the intermediate ones are not evaluated *)
+  if agrees flags_as_pinned c && agrees flags_fixed c then 255 else
   b2n (agrees (mkF false false false) c) 1 + b2n (agrees (mkF false true false) c) 2 +
   b2n (agrees (mkF true false false) c) 4 + b2n (agrees (mkF true true false) c) 8 +
   b2n (agrees (mkF false false true) c) 16 + b2n (agrees (mkF false true true) c) 32 +
